@@ -5,6 +5,8 @@
 package main
 
 import (
+	"math/rand"
+
 	vh "google.golang.org/protobuf/internal/zz_verif_vh"
 
 	// files linked into the harness: the request corpus of C40
@@ -12,7 +14,6 @@ import (
 	_ "google.golang.org/protobuf/cmd/protoc-gen-go/testdata/extensions/base"
 	_ "google.golang.org/protobuf/cmd/protoc-gen-go/testdata/extensions/ext"
 	_ "google.golang.org/protobuf/cmd/protoc-gen-go/testdata/extensions/extra"
-	_ "google.golang.org/protobuf/cmd/protoc-gen-go/testdata/extensions/proto3"
 	_ "google.golang.org/protobuf/cmd/protoc-gen-go/testdata/fieldnames"
 	_ "google.golang.org/protobuf/cmd/protoc-gen-go/testdata/import_public"
 	_ "google.golang.org/protobuf/cmd/protoc-gen-go/testdata/imports"
@@ -70,7 +71,20 @@ func run(c *vh.Ctx) {
 		runC40(c)
 	case "C41":
 		runC41(c)
+	case "SCHEMATEST": // development aid: validity rate of the schema generator
+		schemaTest(c)
 	default:
 		panic("gen harness: unknown property " + c.Prop)
+	}
+}
+
+func schemaTest(c *vh.Ctx) {
+	for i := 0; i < c.N(30, 300); i++ {
+		files := genPackage(c, rand.New(rand.NewSource(c.Seed*7919+int64(i))), i, 3+i%4)
+		inst := instantiateSet(files, "zz.t", "example.com/zzt", "zzt", func(s string) string { return s })
+		if _, err := validate(inst); err != nil {
+			c.Check(false, "invalid", err.Error(), "")
+		}
+		c.Case("", false)
 	}
 }
